@@ -126,6 +126,18 @@ def build_all(log):
     log.write('--- gen_tables\n' + out)
     try:
         prov = json.load(open(os.path.join(COQ, 'Generated', 'provenance.json')))
+        if dump and 'none' in (prov.get('js_exports'), prov.get('js_globals')):
+            # the JS entry module / the registration code is not of the expected shape: ask the loaded module
+            ans = run_impl_wasm(['wglobals'])[0]
+            if ans.startswith('ok:'):
+                gl, ex = ans[3:].split('|')
+                d = json.load(open(dump))
+                d['js_globals'] = [g for g in gl.split(',') if g]
+                d['js_exports'] = [e.split('=') for e in ex.split(',') if e]
+                json.dump(d, open(dump, 'w'))
+                rc, out = sh([os.path.join(BIN, 'gen_tables'), REPO, os.path.join(COQ, 'Generated'), dump], timeout=120)
+                log.write('--- gen_tables (with the loaded module\'s globals and exports)\n' + out)
+                prov = json.load(open(os.path.join(COQ, 'Generated', 'provenance.json')))
         odd = sorted('%s: %s' % (k, v) for k, v in prov.items() if v not in ('source', 'runtime'))
         if odd:
             st['notes'].append('generated items not read from the source or the built library: ' + ', '.join(odd))
